@@ -16,6 +16,7 @@ import (
 
 type World struct {
 	fset      *token.FileSet
+	errGlobals map[*ssa.Global]bool
 	pkgs      []*packages.Package
 	prog      *ssa.Program
 	spkgs     []*ssa.Package
